@@ -481,8 +481,10 @@ IsBrFmt(fmt) == fmt \in {"br", "sob"}
 PadBefore(A, fmt) == LET p == IF IsBrFmt(fmt) THEN 304 ELSE 8 IN IF Mode = "single" /\ A >= p THEN p ELSE 0
 PadAfter(A, L, fmt) == LET p == IF IsBrFmt(fmt) THEN 312 ELSE 8 IN IF Mode = "single" /\ A + L + p <= 65536 THEN p ELSE 0
 InsLen(args) == 2 + 2 * Cardinality({j \in 1..Len(args) : HasExt(args[j])})
-LabelOffset(sh) == CASE sh = "lblp" -> -2 [] sh = "lblm" -> 4 [] sh \in {"lbl", "loc", "locc"} -> 0 [] OTHER -> 0
-UsesLabel(sh) == sh \in {"lbl", "lblp", "lblm", "loc", "locc"}
+(* added after the second seeding round: "locp" a multi-digit local label in a complex operand '10+2' (branch operands only:
+   the first number is the label);  "numlocc" '2+1:' (a literal plus a local label written with its colon);  "parlbl" '(L)+2' *)
+LabelOffset(sh) == CASE sh \in {"lblp", "locp", "numlocc", "parlbl"} -> -2 [] sh = "lblm" -> 4 [] sh \in {"lbl", "loc", "locc"} -> 0 [] OTHER -> 0
+UsesLabel(sh) == sh \in {"lbl", "lblp", "lblm", "loc", "locc", "locp", "numlocc", "parlbl"}
 Shaped(f) == IsRel(f) \/ f.k = "Br"
 TargetOf(f, A) == IF f.k = "Br" THEN BrTarget(f, A) ELSE RelTarget(f, A)
 LabelPlan(sh, f, A, L, fmt) ==
@@ -498,6 +500,9 @@ ShapeOK(sh, f, A, L, fmt) ==
       [] sh \in {"lbl", "lblp", "lblm"} -> (p.a <= A \/ p.a >= A + L) /\ p.a \in 0..65535 /\ (p.near \/ ~isBr)
       [] sh = "loc"    -> isBr /\ (p.a <= A \/ p.a >= A + L) /\ p.near
       [] sh = "locc"   -> (p.a <= A \/ p.a >= A + L) /\ p.near
+      [] sh = "locp"   -> isBr /\ (p.a <= A \/ p.a >= A + L) /\ p.near
+      [] sh = "numlocc" -> (p.a <= A \/ p.a >= A + L) /\ p.near
+      [] sh = "parlbl" -> (p.a <= A \/ p.a >= A + L) /\ p.a \in 0..65535 /\ (p.near \/ ~isBr)
 PosDep(fmt, args) == IsBrFmt(fmt) \/ \E j \in 1..Len(args) : IsRel(args[j])
 ShapesFor(fmt, args, A) ==
     IF ~PosDep(fmt, args) THEN {"-"}
